@@ -1,10 +1,153 @@
-(* C38 — property theorems only. *)
+(* C38 — property theorems only.  Each is closed by `exact <lemma>` and followed by Print Assumptions.
+
+   Reading guide.  [run_op w o os] runs one CNI invocation (ADD or DEL) of the plugin model from world [w] (allocation
+   table + upgrade marker) where [os] are the answers of the abstract IPAM to the calls the invocation makes, one per
+   call; it is [Some] exactly when every answer satisfies the IPAM contract [admissible] (Model.v) and the
+   invocation consumed all of them.  The answers are universally quantified: any call may fail (before, after or in
+   the middle of its effect), AutoAssign may hand back fewer addresses than asked.  [run_ops] runs a history of
+   invocations on arbitrary containers.  [clean c s]: the table [s] has no address under either handle of
+   container [c] (primary "<network>.<containerID>", legacy "<namespace>.<pod>" / "<containerID>"). *)
 From Coq Require Import String List NArith Bool Arith.
 From Verif.C38 Require Import Model Spec Proofs.
 Import ListNotations.
 
-Theorem c38_del_releases_primary_first : forall c s os s' r cs rest,
-  exec (cmd_del c) s os = Some (s', r, cs, rest) ->
-  exists cs', cs = (CRelH (primary c), true) :: cs'.
-Proof. exact del_first_call. Qed.
-Print Assumptions c38_del_releases_primary_first.
+(* Once the final delete succeeds no address remains allocated to that container's handles: for EVERY history of
+   adds and deletes (any containers, any requests, any admissible fault pattern) followed by a delete of c that
+   reports success. *)
+Theorem c38_final_del_clean : forall w hist c os w' rs,
+  run_ops w (hist ++ [(OpDel c, os)]) = Some (w', rs) -> last rs RFail = RDelOk -> clean c (w_store w').
+Proof. exact final_del_clean. Qed.
+Print Assumptions c38_final_del_clean.
+
+(* No leak: whatever is in the table after a history was there before it or sits under the primary handle of a
+   container that was ADDed in the history (so that container's successful delete removes it). *)
+Theorem c38_allocations_only_under_own_handle : forall hist w w' rs,
+  run_ops w hist = Some (w', rs) ->
+  forall p, In p (w_store w') ->
+    In p (w_store w) \/ exists c q os, In (OpAdd c q, os) hist /\ snd p = primary c.
+Proof. exact provenance. Qed.
+Print Assumptions c38_allocations_only_under_own_handle.
+
+(* Life cycle of one container: after any sequence of its adds and deletes (failed, partial, repeated, dual
+   stack ...) and a final successful delete, nothing is left under its handles, the table is a subset of what it
+   was before the container existed, and no allocation of any other handle was touched. *)
+Theorem c38_container_lifecycle : forall hist c osd w w' rs,
+  (forall o os, In (o, os) hist -> about c o) ->
+  run_ops w (hist ++ [(OpDel c, osd)]) = Some (w', rs) -> last rs RFail = RDelOk ->
+  clean c (w_store w') /\
+  incl (w_store w') (w_store w) /\
+  (forall p, In p (w_store w) -> snd p <> primary c -> snd p <> legacy c -> In p (w_store w')).
+Proof. exact lifecycle. Qed.
+Print Assumptions c38_container_lifecycle.
+
+(* Delete is idempotent and harmless.  For one delete invocation with ANY admissible answers:
+   it never allocates, removes only addresses of the container's two handles, reports success or failure (nothing
+   else), leaves nothing behind when it reports success, fails only if some IPAM call failed with an error other
+   than "not found", and on a container that holds nothing it succeeds and changes nothing whenever no IPAM call
+   fails. *)
+Theorem c38_del_idempotent : forall w c os w' r cs,
+  run_op w (OpDel c) os = Some (w', r, cs) ->
+  w_marker w' = w_marker w /\
+  incl (w_store w') (w_store w) /\
+  (forall p, In p (w_store w) -> ~ In p (w_store w') -> snd p = primary c \/ snd p = legacy c) /\
+  (r = RDelOk -> clean c (w_store w')) /\
+  (clean c (w_store w) -> Forall (fun o => is_other (o_err o) = false) os -> r = RDelOk /\ w' = w) /\
+  (r = RDelOk \/ r = RFail) /\
+  (r = RFail -> Forall (fun o => is_other (o_err o) = false) os -> False).
+Proof. exact run_op_del_spec. Qed.
+Print Assumptions c38_del_idempotent.
+
+(* Repeated deletes: after a successful delete every further delete whose IPAM calls do not fail succeeds and
+   leaves the world exactly as it was ... *)
+Theorem c38_del_repeat : forall w c os1 w1 cs1 os2 w2 r2 cs2,
+  run_op w (OpDel c) os1 = Some (w1, RDelOk, cs1) ->
+  Forall (fun o => is_other (o_err o) = false) os2 ->
+  run_op w1 (OpDel c) os2 = Some (w2, r2, cs2) ->
+  r2 = RDelOk /\ w2 = w1.
+Proof. exact del_repeat. Qed.
+Print Assumptions c38_del_repeat.
+
+(* ... and such a run exists (the IPAM answers "not found" twice): the statement above is not vacuous. *)
+Theorem c38_del_repeat_exists : forall w c, clean c (w_store w) ->
+  run_op w (OpDel c) [notfound; notfound] =
+  Some (w, RDelOk, [(CRelH (primary c), true); (CRelH (legacy c), true)]).
+Proof. exact del_repeat_exists. Qed.
+Print Assumptions c38_del_repeat_exists.
+
+(* A successful add holds an address for every requested family: the address is in the reported result AND is
+   allocated to the container's primary handle in the table (for a requested address: exactly that address).
+   Also for every add: it never removes a pre-existing allocation, everything it leaves is under the container's
+   primary handle, and a failed add whose IPAM calls all reported success (half success without error: the
+   dual-stack roll-back path) leaves the table as it found it. *)
+Theorem c38_add_success_has_all_families : forall w c q os w' r cs,
+  run_op w (OpAdd c q) os = Some (w', r, cs) ->
+  incl (w_store w) (w_store w') /\
+  (forall p, In p (w_store w') -> In p (w_store w) \/ snd p = primary c) /\
+  (forall ips, r = RAddOk ips -> add_goal c q ips (w_store w')) /\
+  (r = RFail -> Forall (fun o => o_err o = ENone) os -> incl (w_store w') (w_store w)) /\
+  r <> RPanic /\ r <> RDelOk.
+Proof. exact run_op_add_spec. Qed.
+Print Assumptions c38_add_success_has_all_families.
+
+(* Dual stack (both families requested).  What the code guarantees, precisely:
+   - if AutoAssign itself returns an error, the add fails WITHOUT attempting any release: whatever AutoAssign
+     allocated before failing (e.g. the IPv4 address when the IPv6 assignment errors) stays allocated -- under the
+     container's primary handle (previous theorem), so it is removed by the next successful delete
+     (c38_final_del_clean), not by the add;
+   - if AutoAssign returns no error but exactly one family came back empty, the add fails after exactly one
+     ReleaseIPs call (made outside the host-wide lock) for exactly the other family's addresses; if that call
+     succeeds the table is back to what it was, if it fails the error is only logged and the address again stays
+     under the primary handle until a delete. *)
+Theorem c38_dualstack_rollback : forall w c a4 a6 os w' r cs,
+  num4 a4 = 1 -> num6 a6 = 1 ->
+  run_op w (OpAdd c (RAuto a4 a6)) os = Some (w', r, cs) ->
+  exists o os1, os = o :: os1 /\
+    (o_err o <> ENone ->
+       r = RFail /\ cs = [(CAuto (primary c) 1 1, true)] /\ os1 = [] /\ w_store w' = apply_out (w_store w) o) /\
+    (o_err o = ENone ->
+       forall l4 l6, l4 = olist (o_r4 o) -> l6 = olist (o_r6 o) ->
+       ((l4 = [] /\ l6 <> []) \/ (l4 <> [] /\ l6 = [])) ->
+       r = RFail /\ cs = [(CAuto (primary c) 1 1, true); (CRelIPs (l4 ++ l6), false)] /\
+       exists o', os1 = [o'] /\ (o_err o' = ENone -> incl (w_store w') (w_store w))).
+Proof. exact dualstack_shape. Qed.
+Print Assumptions c38_dualstack_rollback.
+
+(* The specification oracle of Spec.v (the one applied to the implementation's observations by the correspondence
+   run) accepts every invocation of the model, for all worlds, operations and admissible answers. *)
+Theorem c38_model_meets_spec : forall w o ks w' r cs,
+  run_op w o (map k_out ks) = Some (w', r, cs) ->
+  ok_step (w_store w) {| s_op := o; s_calls := ks; s_res := r; s_marker := w_marker w'; s_store := w_store w' |} = true.
+Proof. exact model_meets_spec. Qed.
+Print Assumptions c38_model_meets_spec.
+
+(* ---------------------------------------------------------------- non-vacuity: concrete runs *)
+Definition ex_c : container :=
+  {| ct_net := "net1"%string; ct_cid := "cid0"%string; ct_k8s := Some ("ns1"%string, "pod0"%string) |}.
+Definition ex_w : world :=
+  {| w_store := [(V4 9, "ns1.pod0"%string); (V4 7, "other.x"%string)]; w_marker := true |}.
+Definition out (e : errk) r4 r6 add del := {| o_err := e; o_r4 := r4; o_r6 := r6; o_add := add; o_del := del |}.
+
+(* dual-stack add, IPv6 comes back empty: IPv4 is released again, the add fails, the table is unchanged *)
+Example c38_example_rollback :
+  run_op ex_w (OpAdd ex_c (RAuto None (Some true)))
+    [out ENone (Some [V4 1]) (Some []) [(V4 1, "net1.cid0"%string)] [];
+     out ENone None None [] [(V4 1, "net1.cid0"%string)]]
+  = Some (ex_w, RFail, [(CAuto "net1.cid0"%string 1 1, true); (CRelIPs [V4 1], false)]).
+Proof. vm_compute. reflexivity. Qed.
+
+(* AutoAssign fails after allocating IPv4 (nothing is released by the add), a first delete fails half way, the
+   second succeeds and also removes the legacy (v2.x) allocation; the unrelated handle is untouched *)
+Example c38_example_history :
+  run_ops ex_w
+    [(OpAdd ex_c (RAuto None (Some true)), [out EOther (Some [V4 1]) None [(V4 1, "net1.cid0"%string)] []]);
+     (OpDel ex_c, [out EOther None None [] []]);
+     (OpDel ex_c, [out ENone None None [] [(V4 1, "net1.cid0"%string)];
+                   out ENone None None [] [(V4 9, "ns1.pod0"%string)]]);
+     (OpDel ex_c, [notfound; notfound])]
+  = Some ({| w_store := [(V4 7, "other.x"%string)]; w_marker := true |}, [RFail; RFail; RDelOk; RDelOk]).
+Proof. vm_compute. reflexivity. Qed.
+
+(* the contract is enforced: "not found" while the handle still holds an address is not an admissible answer *)
+Example c38_example_inadmissible :
+  run_op ex_w (OpDel ex_c) [notfound; notfound] = None.
+Proof. vm_compute. reflexivity. Qed.
